@@ -45,7 +45,8 @@ theorem tnuc_first_ice (h : Hyp inp kCN i) (hice : never 0 (sigmaRow inp kCN i) 
   exact ⟨by rw [timeVec_get _ _ h.dt_pos _ hk]; exact this.2.1, this.2.1⟩
 
 /-- **first ice, without any trajectory hypothesis**: if some stored column of vial `i` shows ice and
-`k₀` is the first one, the vial HAS a recorded nucleation time and it is at least `t[k₀]` (it is
+`k₀` is the first one, the vial HAS a recorded nucleation time and it is at least `t[k₀]` (needs only
+`JumpPos`, a condition on the constants discharged by `hyp_jump_of_valid`; it is
 exactly `t[k₀]` when the vial keeps its ice, `tnuc_first_ice`; a vial that melted completely and
 nucleated again carries the later time). -/
 theorem tnuc_at_least_first_ice (hi : i < inp.nVials) (hdt : 0 < inp.p.dt) (hJ : JumpPos inp.p)
